@@ -631,6 +631,91 @@ pub fn c07_literal() {
         check!(got == Ok(Value::List(Arc::new((0..n as i64).map(|j| Value::Int(100 + j)).collect()))), "list literal holds the element values in order");
     }
 }
+/// C10 native replay: the five macros over a list of 0-3 booleans with a logging predicate.
+pub fn c10_macro() {
+    let (mac, n, bits): (u8, u8, u8) = (any(), any(), any());
+    crate::sym::assume(mac <= 5 && n <= 3 && bits < 8);
+    let elems: Vec<bool> = (0..n).map(|k| (bits >> k) & 1 == 1).collect();
+    let log: Arc<Mutex<Vec<bool>>> = Arc::new(Mutex::new(Vec::new()));
+    let mut ctx = Context::default();
+    {
+        let l = log.clone();
+        ctx.add_function("p", move |b: bool| -> bool {
+            l.lock().unwrap().push(b);
+            b
+        });
+    }
+    let list = format!("[{}]", elems.iter().map(|b| b.to_string()).collect::<Vec<_>>().join(", "));
+    let src = match mac {
+        0 => format!("{}.all(x, p(x))", list),
+        1 => format!("{}.exists(x, p(x))", list),
+        2 => format!("{}.exists_one(x, p(x))", list),
+        3 => format!("{}.map(x, p(x))", list),
+        4 => format!("{}.map(x, p(x), !x)", list),
+        _ => format!("{}.filter(x, p(x))", list),
+    };
+    let got = Program::compile(&src).expect("macro source compiles").execute(&ctx);
+    let calls = log.lock().unwrap().clone();
+    let blist = |v: Vec<bool>| Value::List(Arc::new(v.into_iter().map(Value::Bool).collect()));
+    let (want, want_calls): (Value, Vec<bool>) = match mac {
+        0 => {
+            let stop = elems.iter().position(|b| !*b).map(|i| i + 1).unwrap_or(elems.len());
+            (Value::Bool(elems.iter().all(|b| *b)), elems[..stop].to_vec())
+        }
+        1 => {
+            let stop = elems.iter().position(|b| *b).map(|i| i + 1).unwrap_or(elems.len());
+            (Value::Bool(elems.iter().any(|b| *b)), elems[..stop].to_vec())
+        }
+        2 => (Value::Bool(elems.iter().filter(|b| **b).count() == 1), elems.clone()),
+        3 => (blist(elems.clone()), elems.clone()),
+        4 => (blist(elems.iter().filter(|b| **b).map(|b| !*b).collect()), elems.clone()),
+        _ => (blist(elems.iter().filter(|b| **b).cloned().collect()), elems.clone()),
+    };
+    check!(got == Ok(want), "macro computes its defining fold");
+    check!(calls == want_calls, "macro visits the elements in order and stops at the first deciding one");
+}
+/// C19 native replay: an undeclared variable and an undeclared function placed in one syntactic
+/// position; whatever execution reports as undeclared must be among the program's references,
+/// and once every reported name is defined execution no longer fails with an undeclared name.
+pub fn c19_references() {
+    let pos: u8 = any();
+    crate::sym::assume(pos <= 9);
+    let make = |hole: &str| -> String {
+        match pos {
+            0 => format!("size([{}])", hole),
+            1 => format!("[{}].size()", hole),
+            2 => format!("[1, {}, 3]", hole),
+            3 => format!("{{{}: 1}}", hole),
+            4 => format!("{{1: {}}}", hole),
+            5 => format!("{}.field", hole),
+            6 => format!("{}.map(x, x)", hole),
+            7 => format!("[1, 2].map(x, {})", hole),
+            8 => format!("true ? {} : 1", hole),
+            _ => format!("[1].all(y, [2].exists(z, {}))", hole),
+        }
+    };
+    for hole in ["undecl_var", "undecl_fn(1)"] {
+        let program = Program::compile(&make(hole)).expect("source compiles");
+        let refs = program.references();
+        let got = program.execute(&Context::default());
+        if let Err(ExecutionError::UndeclaredReference(name)) = &got {
+            check!(refs.has_variable(name.as_str()) || refs.has_function(name.as_str()), "an undeclared name that execution trips over is among the reported references");
+        }
+        check!(refs.variables().iter().all(|v| !v.starts_with('@')), "macro accumulators are never reported");
+        // define everything that is reported: no undeclared reference can remain
+        let mut ctx = Context::default();
+        for v in refs.variables() {
+            ctx.add_variable_from_value(v, Value::Int(1));
+        }
+        for f in refs.functions() {
+            if !ctx.get_variable("__never").is_ok() && f == "undecl_fn" {
+                ctx.add_function(f, |_a: Value| 1i64);
+            }
+        }
+        let again = program.execute(&ctx);
+        check!(!matches!(again, Err(ExecutionError::UndeclaredReference(_))), "with every reported name defined, execution does not fail with an undeclared reference");
+    }
+}
 pub fn c14_literal() {
     c07_literal()
 }
@@ -655,6 +740,9 @@ pub fn c08_unary_minus() {
     
 }
 
+pub fn c19_node() {
+    node_replay()
+}
 pub fn c20_node() {
     node_replay()
 }
@@ -680,9 +768,12 @@ crate::replay_only! {
     #[kani::unwind(2)] c20_extractor_eval: "off", "size(..) / x.size() / max(..) over logging host functions through Program::compile + execute", "This with/without receiver, Arguments; failing argument index 0-2 or none";
     #[kani::unwind(2)] c20_conversion: "off", "host function with one typed parameter (i64/u64/bool/f64/Option<..>) called with a value of each kind, through Program::compile + execute", "7 parameter types x 6 value kinds";
     #[kani::unwind(2)] c07_literal: "off", "list / map literal over logging host functions through Program::compile + execute", "0-3 elements or entries, every failing position";
+    #[kani::unwind(2)] c10_macro: "off", "all/exists/exists_one/map/map-with-filter/filter over a list of booleans with a logging predicate, through Program::compile + execute", "lists of 0-3 booleans, all contents";
+    #[kani::unwind(2)] c19_references: "off", "Program::references vs execution with an undeclared variable / function in one of ten syntactic positions", "ten positions x {variable, function}";
     #[kani::unwind(2)] c14_literal: "off", "same body (C14)", "same";
     #[kani::unwind(2)] c07_extractor_eval: "off", "same body (C07)", "same";
     #[kani::unwind(2)] c08_unary_minus: "off", "Program::compile + Value::resolve NEGATE arm", "i: all i64";
+    #[kani::unwind(2)] c19_node: "off", "same body (C19)", "17 operators x 5 operand-result kinds";
     #[kani::unwind(2)] c20_node: "off", "same body (C20)", "17 operators x 5 operand-result kinds";
     #[kani::unwind(2)] c20_missing_argument: "off", "host functions with Expression / Identifier parameters called with too few arguments, through Program::compile + execute", "0-3 leading value parameters, 0-3 supplied arguments";
     #[kani::unwind(2)] c08_node: "off", "same body (C08 operators)", "17 operators x 5 operand-result kinds";
